@@ -123,4 +123,636 @@ theorem ext_getD (l m : List Nat) (hlen : l.length = m.length) (h : ∀ j, j < l
     List.getElem?_eq_getElem h2] at this
   exact this
 
+/-! ## one shifting step -/
+
+/-- which pentagon pair is shifted: `1` if `invertJ ≠ (F.1 + F.2 == 0)`, else `0` -/
+def shiftLo (invertJ : Bool) (F : Int × Int) : Nat := if (invertJ != (F.1 + F.2 == 0)) then 1 else 0
+
+/-- the action of one step on the pair (parent digit `pk = d[i]`, child digit `ck = d[i-1]`): the pattern acts
+on the eight pairs with `pk ∈ {lo, lo+1}` (numbered `ck + 4·(pk - lo)`), all other pairs are fixed -/
+def pairStep (lo : Nat) (P : List Nat) (pk ck : Nat) : Nat × Nat :=
+  if lo ≤ pk ∧ pk ≤ lo + 1 then
+    (lo + P.getD (ck + 4 * (pk - lo)) 0 / 4, P.getD (ck + 4 * (pk - lo)) 0 % 4)
+  else (pk, ck)
+
+theorem shiftDigits_zero (d : List Nat) (F : Int × Int) (inv : Bool) (P : List Nat) :
+    shiftDigits d 0 F inv P = d := rfl
+
+theorem shiftDigits_succ (d : List Nat) (i : Nat) (F : Int × Int) (inv : Bool) (P : List Nat)
+    (hpk : d.getD (i + 1) 0 < 4) (hck : d.getD i 0 < 4) (hP : ∀ v, P.getD v 0 < 8) :
+    shiftDigits d (i + 1) F inv P =
+      (d.set i (pairStep (shiftLo inv F) P (d.getD (i + 1) 0) (d.getD i 0)).2).set (i + 1)
+        (pairStep (shiftLo inv F) P (d.getD (i + 1) 0) (d.getD i 0)).1 := by
+  obtain ⟨pk, hpke⟩ : ∃ pk, pk = d.getD (i + 1) 0 := ⟨_, rfl⟩
+  obtain ⟨ck, hcke⟩ : ∃ ck, ck = d.getD i 0 := ⟨_, rfl⟩
+  unfold shiftDigits shiftLo pairStep
+  simp only [Nat.add_one_ne_zero, if_false, Nat.add_sub_cancel]
+  rewrite [← hpke, ← hcke]
+  rewrite [← hpke] at hpk
+  rewrite [← hcke] at hck
+  have e1 := set_getD_self d i
+  have e2 := set_getD_self d (i + 1)
+  rewrite [← hcke] at e1
+  rewrite [← hpke] at e2
+  have h1 := hP ck
+  have h2 := hP (ck + 4)
+  have hc : pk = 0 ∨ pk = 1 ∨ pk = 2 ∨ pk = 3 := by omega
+  cases hb : (inv != (F.1 + F.2 == 0)) <;> rcases hc with rfl | rfl | rfl | rfl <;>
+    simp only [List.getD_eq_getElem?_getD] at h1 h2 ⊢ <;> simp
+  all_goals first
+    | (refine congrArg _ ?_; omega)
+    | (rewrite [e1, e2]; rfl)
+
+theorem NO_mulFlips (a : Int × Int) : mulFlips (Gen.NO, Gen.NO) a = a := by
+  rewrite [NO_eq_one, one_mulFlips]; rfl
+
+theorem shiftLo_le (inv : Bool) (F : Int × Int) : shiftLo inv F ≤ 1 := by
+  unfold shiftLo; split <;> omega
+
+/-- `Q` undoes `P` on `0..7` and vice versa; entries `< 8` -/
+structure InvOn8 (P Q : List Nat) : Prop where
+  ltP : ∀ v, P.getD v 0 < 8
+  ltQ : ∀ v, Q.getD v 0 < 8
+  left : ∀ v, v < 8 → Q.getD (P.getD v 0) 0 = v
+  right : ∀ v, v < 8 → P.getD (Q.getD v 0) 0 = v
+
+theorem InvOn8.symm {P Q : List Nat} (h : InvOn8 P Q) : InvOn8 Q P := ⟨h.ltQ, h.ltP, h.right, h.left⟩
+
+theorem pairStep_lt (lo : Nat) (P : List Nat) (pk ck : Nat) (hlo : lo ≤ 1) (hpk : pk < 4) (hck : ck < 4)
+    (hP : ∀ v, P.getD v 0 < 8) : (pairStep lo P pk ck).1 < 4 ∧ (pairStep lo P pk ck).2 < 4 := by
+  unfold pairStep
+  have := hP (ck + 4 * (pk - lo))
+  split
+  · constructor
+    · show lo + _ / 4 < 4
+      omega
+    · show _ % 4 < 4
+      omega
+  · exact ⟨hpk, hck⟩
+
+theorem pairStep_inv {P Q : List Nat} (h : InvOn8 P Q) (lo pk ck : Nat) (hck : ck < 4) :
+    pairStep lo Q (pairStep lo P pk ck).1 (pairStep lo P pk ck).2 = (pk, ck) := by
+  unfold pairStep
+  by_cases hr : lo ≤ pk ∧ pk ≤ lo + 1
+  · simp only [if_pos hr]
+    have hd := h.ltP (ck + 4 * (pk - lo))
+    have hq := h.left (ck + 4 * (pk - lo)) (by omega)
+    generalize P.getD (ck + 4 * (pk - lo)) 0 = dst at hd hq ⊢
+    have hr2 : lo ≤ lo + dst / 4 ∧ lo + dst / 4 ≤ lo + 1 := by omega
+    rewrite [if_pos hr2]
+    have hidx : dst % 4 + 4 * (lo + dst / 4 - lo) = dst := by omega
+    rewrite [hidx, hq]
+    refine Prod.ext ?_ ?_
+    · show lo + _ / 4 = pk
+      omega
+    · show _ % 4 = ck
+      omega
+  · simp only [if_neg hr]
+
+/-- a digit list of length `n` with all digits `< 4` -/
+def Dig4 (n : Nat) (d : List Nat) : Prop := d.length = n ∧ ∀ j, d.getD j 0 < 4
+
+theorem dig4_iff (n : Nat) (d : List Nat) : Dig4 n d ↔ d.length = n ∧ ∀ x ∈ d, x < 4 :=
+  ⟨fun h => ⟨h.1, forall_mem_of_getD_lt d h.2⟩, fun h => ⟨h.1, getD_lt_of_forall_mem d h.2⟩⟩
+
+theorem shiftDigits_length (d : List Nat) (k : Nat) (F : Int × Int) (inv : Bool) (P : List Nat) :
+    (shiftDigits d k F inv P).length = d.length := by
+  unfold shiftDigits
+  split
+  · rfl
+  · simp only []
+    split <;> split <;> simp only [List.length_set]
+
+theorem shiftDigits_dig4 {n : Nat} {d : List Nat} (hd : Dig4 n d) (k : Nat) (F : Int × Int) (inv : Bool)
+    {P : List Nat} (hP : ∀ v, P.getD v 0 < 8) : Dig4 n (shiftDigits d k F inv P) := by
+  refine ⟨(shiftDigits_length ..).trans hd.1, ?_⟩
+  cases k with
+  | zero => exact hd.2
+  | succ i =>
+    intro j
+    have hl := pairStep_lt (shiftLo inv F) P _ _ (shiftLo_le inv F) (hd.2 (i + 1)) (hd.2 i) hP
+    rewrite [shiftDigits_succ d i F inv P (hd.2 _) (hd.2 _) hP, getD_set, getD_set]
+    split
+    · exact hl.1
+    · split
+      · exact hl.2
+      · exact hd.2 j
+
+/-- a step only changes positions `k` and `k - 1` -/
+theorem shiftDigits_getD_ne (d : List Nat) (k : Nat) (F : Int × Int) (inv : Bool) (P : List Nat) (j : Nat)
+    (h1 : j ≠ k) (h2 : j + 1 ≠ k) : (shiftDigits d k F inv P).getD j 0 = d.getD j 0 := by
+  unfold shiftDigits
+  split
+  · rfl
+  · simp only []
+    split <;> split <;> first
+      | rfl
+      | (rewrite [getD_set, getD_set, if_neg (fun h => h1 h.1.symm), if_neg (fun h => h2 (by omega))]; rfl)
+
+/-- a step is the identity unless the parent digit is `lo` or `lo + 1` -/
+theorem shiftDigits_id (d : List Nat) (k : Nat) (F : Int × Int) (inv : Bool) {P : List Nat}
+    (hpk : d.getD k 0 < 4) (hck : d.getD (k - 1) 0 < 4) (hP : ∀ v, P.getD v 0 < 8)
+    (h : ¬(shiftLo inv F ≤ d.getD k 0 ∧ d.getD k 0 ≤ shiftLo inv F + 1)) : shiftDigits d k F inv P = d := by
+  cases k with
+  | zero => rfl
+  | succ i =>
+    rewrite [shiftDigits_succ d i F inv P hpk hck hP]
+    unfold pairStep
+    rewrite [if_neg h]
+    show (d.set i (d.getD i 0)).set (i + 1) (d.getD (i + 1) 0) = d
+    rewrite [set_getD_self, set_getD_self]
+    rfl
+
+/-- closed form of an acting step: with `src = ck + 4·(pk - lo)` and `dst = P[src]` it writes `dst % 4` to
+position `i` and `lo + dst / 4` to position `i + 1` -/
+theorem shiftDigits_shift (d : List Nat) (i : Nat) (F : Int × Int) (inv : Bool) {P : List Nat}
+    (hpk : d.getD (i + 1) 0 < 4) (hck : d.getD i 0 < 4) (hP : ∀ v, P.getD v 0 < 8)
+    (h : shiftLo inv F ≤ d.getD (i + 1) 0 ∧ d.getD (i + 1) 0 ≤ shiftLo inv F + 1) :
+    shiftDigits d (i + 1) F inv P =
+      (d.set i (P.getD (d.getD i 0 + 4 * (d.getD (i + 1) 0 - shiftLo inv F)) 0 % 4)).set (i + 1)
+        (shiftLo inv F + P.getD (d.getD i 0 + 4 * (d.getD (i + 1) 0 - shiftLo inv F)) 0 / 4) := by
+  rewrite [shiftDigits_succ d i F inv P hpk hck hP]
+  unfold pairStep
+  rewrite [if_pos h]
+  rfl
+
+theorem set_set_pair (d : List Nat) (i a b a' b' : Nat) :
+    (((d.set i a).set (i + 1) b).set i a').set (i + 1) b' = (d.set i a').set (i + 1) b' := by
+  rewrite [List.set_comm a b (by omega : i ≠ i + 1), List.set_set,
+    List.set_comm b a' (by omega : i + 1 ≠ i), List.set_set]
+  rfl
+
+/-- one step with the inverse pattern and the same flips undoes the step -/
+theorem shiftDigits_inv {P Q : List Nat} (h : InvOn8 P Q) {n : Nat} {d : List Nat} (hd : Dig4 n d) (k : Nat)
+    (hk : k < n) (F : Int × Int) (inv : Bool) :
+    shiftDigits (shiftDigits d k F inv P) k F inv Q = d := by
+  cases k with
+  | zero => rfl
+  | succ i =>
+    have hd1 := shiftDigits_dig4 hd (i + 1) F inv h.ltP
+    have hlen := hd.1
+    rewrite [shiftDigits_succ _ i F inv Q (hd1.2 _) (hd1.2 _) h.ltQ]
+    rewrite [shiftDigits_succ d i F inv P (hd.2 _) (hd.2 _) h.ltP]
+    have g1 : ∀ a b : Nat, ((d.set i a).set (i + 1) b).getD (i + 1) 0 = b := by
+      intro a b
+      rewrite [getD_set, if_pos ⟨rfl, by rewrite [List.length_set]; omega⟩]; rfl
+    have g0 : ∀ a b : Nat, ((d.set i a).set (i + 1) b).getD i 0 = a := by
+      intro a b
+      rewrite [getD_set, if_neg (by omega), getD_set, if_pos ⟨rfl, by omega⟩]; rfl
+    rewrite [g1, g0, pairStep_inv h _ _ _ (hd.2 _), set_set_pair]
+    show (d.set i (d.getD i 0)).set (i + 1) (d.getD (i + 1) 0) = d
+    rewrite [set_getD_self, set_getD_self]
+    rfl
+
+/-! ## patterns -/
+
+/-- `P` is a permutation of `0..7`: length 8, entries `< 8`, every value occurs, no value occurs twice -/
+def IsPerm8 (P : List Nat) : Prop :=
+  P.length = 8 ∧ (∀ v, v < 8 → P.getD v 0 < 8) ∧ (∀ v, v < 8 → v ∈ P) ∧
+    (∀ v, v < 8 → ∀ w, w < 8 → P.getD v 0 = P.getD w 0 → v = w)
+
+instance (P : List Nat) : Decidable (IsPerm8 P) := by unfold IsPerm8; exact inferInstance
+
+theorem isPerm8_PATTERN : IsPerm8 Gen.PATTERN := by decide
+theorem isPerm8_PATTERN_FLIPPED : IsPerm8 Gen.PATTERN_FLIPPED := by decide
+
+theorem getD_of_length_le (l : List Nat) (v : Nat) (h : l.length ≤ v) : l.getD v 0 = 0 := by
+  rewrite [List.getD_eq_getElem?_getD, List.getElem?_eq_none h]; rfl
+
+theorem length_reversePattern (P : List Nat) : (reversePattern P).length = P.length := by
+  simp only [reversePattern, List.length_map, List.length_range]
+
+theorem getD_reversePattern (P : List Nat) (v : Nat) (hv : v < P.length) :
+    (reversePattern P).getD v 0 = P.idxOf v := by
+  unfold reversePattern
+  rewrite [List.getD_eq_getElem?_getD, List.getElem?_map, List.getElem?_range hv]; rfl
+
+theorem getD_idxOf (P : List Nat) (v : Nat) (h : v ∈ P) : P.getD (P.idxOf v) 0 = v := by
+  have hl := List.idxOf_lt_length_of_mem h
+  rewrite [List.getD_eq_getElem?_getD, List.getElem?_eq_getElem hl, List.getElem_idxOf hl]; rfl
+
+/-- `reversePattern P` is the inverse permutation of `P` -/
+theorem IsPerm8.invOn8 {P : List Nat} (h : IsPerm8 P) : InvOn8 P (reversePattern P) := by
+  obtain ⟨hlen, hlt, hmem, hinj⟩ := h
+  have ltP : ∀ v, P.getD v 0 < 8 := by
+    intro v
+    by_cases hv : v < 8
+    · exact hlt v hv
+    · rewrite [getD_of_length_le P v (by omega)]; omega
+  have ltI : ∀ v, v < 8 → P.idxOf v < 8 := by
+    intro v hv
+    have := List.idxOf_lt_length_of_mem (hmem v hv)
+    omega
+  refine ⟨ltP, ?_, ?_, ?_⟩
+  · intro v
+    by_cases hv : v < 8
+    · rewrite [getD_reversePattern P v (by omega)]; exact ltI v hv
+    · rewrite [getD_of_length_le _ v (by rewrite [length_reversePattern]; omega)]; omega
+  · intro v hv
+    have hw := hlt v hv
+    rewrite [getD_reversePattern P _ (by omega)]
+    exact hinj _ (ltI _ hw) v hv (getD_idxOf P _ (hmem _ hw))
+  · intro v hv
+    rewrite [getD_reversePattern P v (by omega)]
+    exact getD_idxOf P v (hmem v hv)
+
+theorem IsPerm8.getD_lt {P : List Nat} (h : IsPerm8 P) (v : Nat) : P.getD v 0 < 8 := h.invOn8.ltP v
+
+theorem IsPerm8.reversePattern_getD {P : List Nat} (h : IsPerm8 P) (v : Nat) (hv : v < 8) :
+    (reversePattern P).getD (P.getD v 0) 0 = v := h.invOn8.left v hv
+
+theorem IsPerm8.getD_reversePattern {P : List Nat} (h : IsPerm8 P) (v : Nat) (hv : v < 8) :
+    P.getD ((reversePattern P).getD v 0) 0 = v := h.invOn8.right v hv
+
+/-- the reversed pattern is again a permutation of `0..7` -/
+theorem IsPerm8.reverse {P : List Nat} (h : IsPerm8 P) : IsPerm8 (reversePattern P) := by
+  have hi := h.invOn8
+  have hlen : (reversePattern P).length = 8 := (length_reversePattern P).trans h.1
+  refine ⟨hlen, fun v _ => hi.ltQ v, ?_, ?_⟩
+  · intro v hv
+    have hw := hi.ltP v
+    have e := hi.left v hv
+    rewrite [List.getD_eq_getElem?_getD, List.getElem?_eq_getElem (by omega)] at e
+    exact e ▸ List.getElem_mem _
+  · intro v hv w hw e
+    have := congrArg (fun x => P.getD x 0) e
+    simp only [hi.right v hv, hi.right w hw] at this
+    exact this
+
+/-! ## the two passes -/
+
+/-- `shiftUp` that also returns the final flips -/
+def shiftUpF (invertJ : Bool) (pattern : List Nat) : Nat → Nat → List Nat → Int × Int → List Nat × (Int × Int)
+  | 0, _, digits, flips => (digits, flips)
+  | m + 1, i, digits, flips =>
+    let flips := mulFlips flips (quaternaryToFlips (digits.getD i 0))
+    let digits := shiftDigits digits i flips invertJ pattern
+    shiftUpF invertJ pattern m (i + 1) digits flips
+
+theorem shiftUp_eq (inv : Bool) (P : List Nat) (m i : Nat) (d : List Nat) (F : Int × Int) :
+    shiftUp inv P m i d F = (shiftUpF inv P m i d F).1 := by
+  induction m generalizing i d F with
+  | zero => rfl
+  | succ m ih => exact ih ..
+
+/-- `shiftUpF` peeled at the last (most significant) step -/
+theorem shiftUpF_succ (inv : Bool) (P : List Nat) (m i : Nat) (d : List Nat) (F : Int × Int) :
+    shiftUpF inv P (m + 1) i d F =
+      (shiftDigits (shiftUpF inv P m i d F).1 (i + m)
+          (mulFlips (shiftUpF inv P m i d F).2 (quaternaryToFlips ((shiftUpF inv P m i d F).1.getD (i + m) 0))) inv P,
+        mulFlips (shiftUpF inv P m i d F).2 (quaternaryToFlips ((shiftUpF inv P m i d F).1.getD (i + m) 0))) := by
+  induction m generalizing i d F with
+  | zero => rfl
+  | succ m ih =>
+    show shiftUpF inv P (m + 1) (i + 1) _ _ = _
+    rewrite [ih, (by omega : i + 1 + m = i + (m + 1))]
+    rfl
+
+/-- Everything about the top-down pass at once.  For `k ≤ n` and a digit list `d` (length `n`, digits `< 4`),
+`shiftDown … k d F` (i) is again such a list, (ii) leaves positions `≥ k` alone, (iii) returns the flips
+`F · Π_{j<k} flips(d'[j])` over the *final* digits, and (iv) is undone by the bottom-up pass with the
+reversed pattern, started from the returned flips. -/
+theorem shiftDown_spec {P Q : List Nat} (h : InvOn8 P Q) (inv : Bool) {n : Nat} (k : Nat) (hk : k ≤ n)
+    (d : List Nat) (hd : Dig4 n d) (F : Int × Int) :
+    Dig4 n (shiftDown inv P k d F).1 ∧
+    (∀ j, k ≤ j → (shiftDown inv P k d F).1.getD j 0 = d.getD j 0) ∧
+    (shiftDown inv P k d F).2 = mulFlips F (flipsUpTo (shiftDown inv P k d F).1 k) ∧
+    shiftUpF inv Q k 0 (shiftDown inv P k d F).1 (shiftDown inv P k d F).2 = (d, F) := by
+  induction k generalizing d F with
+  | zero => exact ⟨hd, fun _ _ => rfl, (mulFlips_one F).symm, rfl⟩
+  | succ k ih =>
+    have hd1 := shiftDigits_dig4 hd k F inv h.ltP
+    obtain ⟨r1, r2, r3, r4⟩ := ih (by omega) (shiftDigits d k F inv P) hd1
+      (mulFlips F (quaternaryToFlips ((shiftDigits d k F inv P).getD k 0)))
+    show Dig4 n (shiftDown inv P k (shiftDigits d k F inv P) _).1 ∧
+      (∀ j, k + 1 ≤ j → (shiftDown inv P k (shiftDigits d k F inv P) _).1.getD j 0 = d.getD j 0) ∧
+      (shiftDown inv P k (shiftDigits d k F inv P) _).2 =
+        mulFlips F (flipsUpTo (shiftDown inv P k (shiftDigits d k F inv P) _).1 (k + 1)) ∧
+      shiftUpF inv Q (k + 1) 0 (shiftDown inv P k (shiftDigits d k F inv P) _).1
+        (shiftDown inv P k (shiftDigits d k F inv P) _).2 = (d, F)
+    refine ⟨r1, ?_, ?_, ?_⟩
+    · intro j hj
+      rewrite [r2 j (by omega)]
+      exact shiftDigits_getD_ne d k F inv P j (by omega) (by omega)
+    · rewrite [r3, flipsUpTo, r2 k (Nat.le_refl k), mulFlips_assoc,
+        mulFlips_comm (quaternaryToFlips _)]
+      rfl
+    · rewrite [shiftUpF_succ, r4]
+      simp only [Nat.zero_add]
+      rewrite [mulFlips_cancel F _ (hd1.2 k), shiftDigits_inv h hd k (by omega)]
+      rfl
+
+/-- Everything about the bottom-up pass at once (the mirror image of `shiftDown_spec`). -/
+theorem shiftUpF_spec {P Q : List Nat} (h : InvOn8 P Q) (inv : Bool) {n : Nat} (k : Nat) (hk : k ≤ n)
+    (e : List Nat) (he : Dig4 n e) (F : Int × Int) :
+    Dig4 n (shiftUpF inv Q k 0 e F).1 ∧
+    (∀ j, k ≤ j → (shiftUpF inv Q k 0 e F).1.getD j 0 = e.getD j 0) ∧
+    (shiftUpF inv Q k 0 e F).2 = mulFlips F (flipsUpTo e k) ∧
+    shiftDown inv P k (shiftUpF inv Q k 0 e F).1 (shiftUpF inv Q k 0 e F).2 = (e, F) := by
+  induction k with
+  | zero => exact ⟨he, fun _ _ => rfl, (mulFlips_one F).symm, rfl⟩
+  | succ k ih =>
+    obtain ⟨r1, r2, r3, r4⟩ := ih (by omega)
+    rewrite [shiftUpF_succ]
+    simp only [Nat.zero_add]
+    generalize shiftUpF inv Q k 0 e F = r at r1 r2 r3 r4 ⊢
+    have hd1 := shiftDigits_dig4 r1 k (mulFlips r.2 (quaternaryToFlips (r.1.getD k 0))) inv h.ltQ
+    refine ⟨hd1, ?_, ?_, ?_⟩
+    · intro j hj
+      rewrite [shiftDigits_getD_ne r.1 k _ inv Q j (by omega) (by omega)]
+      exact r2 j (by omega)
+    · rewrite [r3, r2 k (Nat.le_refl k), mulFlips_assoc]
+      rfl
+    · show shiftDown inv P k (shiftDigits (shiftDigits r.1 k _ inv Q) k _ inv P) _ = (e, F)
+      rewrite [shiftDigits_inv h.symm r1 k (by omega), mulFlips_cancel _ _ (r1.2 k)]
+      exact r4
+
+/-- MAIN (a)(b)(c): the top-down pass yields a digit list of the same shape, its flips are the product of the
+flips of the final digits, and the bottom-up pass with the reversed pattern, started from these flips,
+restores the input. -/
+theorem shiftUp_shiftDown {P : List Nat} (hP : IsPerm8 P) (invertJ : Bool) (n : Nat) (ds : List Nat)
+    (hlen : ds.length = n) (hlt : ∀ x ∈ ds, x < 4) :
+    ((shiftDown invertJ P n ds (Gen.NO, Gen.NO)).1.length = n ∧
+      ∀ x ∈ (shiftDown invertJ P n ds (Gen.NO, Gen.NO)).1, x < 4) ∧
+    (shiftDown invertJ P n ds (Gen.NO, Gen.NO)).2 = flipsProd (shiftDown invertJ P n ds (Gen.NO, Gen.NO)).1 ∧
+    shiftUp invertJ (reversePattern P) n 0 (shiftDown invertJ P n ds (Gen.NO, Gen.NO)).1
+      (shiftDown invertJ P n ds (Gen.NO, Gen.NO)).2 = ds := by
+  obtain ⟨r1, _, r3, r4⟩ := shiftDown_spec hP.invOn8 invertJ n (Nat.le_refl n) ds
+    ((dig4_iff n ds).2 ⟨hlen, hlt⟩) (Gen.NO, Gen.NO)
+  refine ⟨(dig4_iff n _).1 r1, ?_, ?_⟩
+  · have hf := flipsUpTo_length (shiftDown invertJ P n ds (Gen.NO, Gen.NO)).1
+    rewrite [r1.1] at hf
+    rewrite [r3, hf]
+    exact NO_mulFlips _
+  · rewrite [shiftUp_eq, r4]; rfl
+
+/-- the bottom-up pass maps digit lists (length `n`, digits `< 4`) to such lists -/
+theorem shiftUp_dig4 {P : List Nat} (hP : IsPerm8 P) (invertJ : Bool) (n : Nat) (e : List Nat)
+    (hlen : e.length = n) (hlt : ∀ x ∈ e, x < 4) (F : Int × Int) :
+    (shiftUp invertJ (reversePattern P) n 0 e F).length = n ∧
+      ∀ x ∈ shiftUp invertJ (reversePattern P) n 0 e F, x < 4 := by
+  rewrite [shiftUp_eq]
+  exact (dig4_iff n _).1
+    (shiftUpF_spec hP.invOn8 invertJ n (Nat.le_refl n) e ((dig4_iff n e).2 ⟨hlen, hlt⟩) F).1
+
+/-- MAIN (d): conversely the top-down pass undoes the bottom-up pass, so the two passes are mutually
+inverse bijections between digit lists. -/
+theorem shiftDown_shiftUp {P : List Nat} (hP : IsPerm8 P) (invertJ : Bool) (n : Nat) (e : List Nat)
+    (hlen : e.length = n) (hlt : ∀ x ∈ e, x < 4) :
+    shiftDown invertJ P n (shiftUp invertJ (reversePattern P) n 0 e (flipsProd e)) (Gen.NO, Gen.NO) =
+      (e, flipsProd e) := by
+  obtain ⟨_, _, r3, r4⟩ := shiftUpF_spec hP.invOn8 invertJ n (Nat.le_refl n) e
+    ((dig4_iff n e).2 ⟨hlen, hlt⟩) (flipsProd e)
+  have hf : flipsUpTo e n = flipsProd e := by
+    have := flipsUpTo_length e
+    rewrite [hlen] at this
+    exact this
+  rewrite [hf, flipsProd_sq e hlt] at r3
+  rewrite [shiftUp_eq, NO_eq_one, ← r3]
+  exact r4
+
+/-! ## base-4 plumbing -/
+
+/-- value of a little-endian base-4 digit list, as a recursion -/
+def val4 : List Nat → Nat
+  | [] => 0
+  | d :: ds => d + 4 * val4 ds
+
+theorem sum_zipIdx (l : List Nat) (k : Nat) :
+    ((l.zipIdx k).map (fun (p : Nat × Nat) => p.1 * 4 ^ p.2)).sum = 4 ^ k * val4 l := by
+  induction l generalizing k with
+  | nil => rfl
+  | cons a l ih =>
+    rewrite [List.zipIdx_cons, List.map_cons, List.sum_cons, ih, val4, Nat.pow_succ, Nat.mul_add,
+      Nat.mul_comm a, Nat.mul_assoc]
+    rfl
+
+theorem digitsValue_eq (l : List Nat) : digitsValue l = val4 l := by
+  have := sum_zipIdx l 0
+  rewrite [Nat.pow_zero, Nat.one_mul] at this
+  exact this
+
+theorem digitsLSB_succ (s n : Nat) : digitsLSB s (n + 1) = s % 4 :: digitsLSB (s / 4) n := by
+  unfold digitsLSB
+  rewrite [List.range_succ_eq_map, List.map_cons, List.map_map]
+  have h0 : s / 4 ^ 0 % 4 = s % 4 := by rewrite [Nat.pow_zero, Nat.div_one]; rfl
+  rewrite [h0]
+  refine congrArg _ (List.map_congr_left ?_)
+  · intro i _
+    show s / 4 ^ (i + 1) % 4 = s / 4 / 4 ^ i % 4
+    rewrite [Nat.div_div_eq_div_mul, Nat.pow_succ, Nat.mul_comm]; rfl
+
+theorem length_digitsLSB (s n : Nat) : (digitsLSB s n).length = n := by
+  simp only [digitsLSB, List.length_map, List.length_range]
+
+theorem digitsLSB_lt (s n : Nat) : ∀ x ∈ digitsLSB s n, x < 4 := by
+  intro x hx
+  simp only [digitsLSB, List.mem_map] at hx
+  obtain ⟨i, _, rfl⟩ := hx
+  exact Nat.mod_lt _ (by decide)
+
+theorem val4_digitsLSB (n s : Nat) (h : s < 4 ^ n) : val4 (digitsLSB s n) = s := by
+  induction n generalizing s with
+  | zero =>
+    rewrite [Nat.pow_zero] at h
+    show 0 = s
+    omega
+  | succ n ih =>
+    rewrite [digitsLSB_succ, val4, ih (s / 4) (by rewrite [Nat.pow_succ] at h; omega)]
+    omega
+
+theorem digitsValue_digitsLSB (s n : Nat) (h : s < 4 ^ n) : digitsValue (digitsLSB s n) = s := by
+  rewrite [digitsValue_eq]; exact val4_digitsLSB n s h
+
+theorem val4_lt (ds : List Nat) (h : ∀ x ∈ ds, x < 4) : val4 ds < 4 ^ ds.length := by
+  induction ds with
+  | nil => decide
+  | cons a l ih =>
+    have ha := h a (List.mem_cons_self ..)
+    have hl := ih (fun x hx => h x (List.mem_cons_of_mem _ hx))
+    rewrite [val4, List.length_cons, Nat.pow_succ]
+    omega
+
+theorem digitsValue_lt (ds : List Nat) (h : ∀ x ∈ ds, x < 4) : digitsValue ds < 4 ^ ds.length := by
+  rewrite [digitsValue_eq]; exact val4_lt ds h
+
+theorem digitsLSB_val4 (ds : List Nat) (h : ∀ x ∈ ds, x < 4) : digitsLSB (val4 ds) ds.length = ds := by
+  induction ds with
+  | nil => rfl
+  | cons a l ih =>
+    have ha := h a (List.mem_cons_self ..)
+    have hl := ih (fun x hx => h x (List.mem_cons_of_mem _ hx))
+    rewrite [List.length_cons, digitsLSB_succ, val4,
+      (by omega : (a + 4 * val4 l) % 4 = a), (by omega : (a + 4 * val4 l) / 4 = val4 l), hl]
+    rfl
+
+theorem digitsLSB_digitsValue (ds : List Nat) (h : ∀ x ∈ ds, x < 4) :
+    digitsLSB (digitsValue ds) ds.length = ds := by
+  rewrite [digitsValue_eq]; exact digitsLSB_val4 ds h
+
+theorem quatLen_le (fuel n s : Nat) (h : s < 4 ^ n) : quatLen fuel s ≤ n := by
+  induction fuel generalizing n s with
+  | zero => exact Nat.zero_le _
+  | succ f ih =>
+    unfold quatLen
+    split
+    · exact Nat.zero_le _
+    · cases n with
+      | zero => rewrite [Nat.pow_zero] at h; omega
+      | succ n =>
+        have := ih n (s / 4) (by rewrite [Nat.pow_succ] at h; omega)
+        omega
+
+theorem max_quatLen (n s : Nat) (h : s < 4 ^ n) : max n (quatLen 33 s) = n :=
+  Nat.max_eq_left (quatLen_le 33 n s h)
+
+/-! ## closed forms of the two internal walks -/
+
+/-- the pattern selected by `flipIJ` -/
+def hilbertPattern (flipIJ : Bool) : List Nat := if flipIJ then Gen.PATTERN_FLIPPED else Gen.PATTERN
+
+theorem isPerm8_hilbertPattern (flipIJ : Bool) : IsPerm8 (hilbertPattern flipIJ) := by
+  cases flipIJ
+  · exact isPerm8_PATTERN
+  · exact isPerm8_PATTERN_FLIPPED
+
+/-- the shifted digits of curve position `s` at depth `n` -/
+def shiftedDigits (s n : Nat) (invertJ flipIJ : Bool) : List Nat :=
+  (shiftDown invertJ (hilbertPattern flipIJ) n (digitsLSB s n) (Gen.NO, Gen.NO)).1
+
+theorem sToAnchorInternal_eq (s n : Nat) (invertJ flipIJ : Bool) (h : s < 4 ^ n) :
+    sToAnchorInternal s n invertJ flipIJ =
+      { flips := (accumOffset n (shiftedDigits s n invertJ flipIJ) (0, 0) (Gen.NO, Gen.NO)).2,
+        k := (shiftedDigits s n invertJ flipIJ).getD 0 0,
+        offset := kjToIJ (accumOffset n (shiftedDigits s n invertJ flipIJ) (0, 0) (Gen.NO, Gen.NO)).1 } := by
+  unfold sToAnchorInternal
+  simp only [max_quatLen n s h]
+  rfl
+
+section generic
+variable {α : Type} [Add α] [Sub α] [Mul α] [Neg α] [LT α] [DecidableLT α]
+
+/-- the locate walk prepends exactly `n` digits to the accumulator and multiplies the flips by their flips -/
+theorem locateDigits_spec (L : Lits α) (x y : α) (n : Nat) (pivot : α × α) (F : Int × Int) (acc : List Nat) :
+    ∃ new : List Nat, new.length = n ∧ (locateDigits L x y n pivot F acc).1 = new ++ acc ∧
+      (locateDigits L x y n pivot F acc).2 = mulFlips F (flipsProd new) := by
+  induction n generalizing pivot F acc with
+  | zero => exact ⟨[], rfl, rfl, (mulFlips_one F).symm⟩
+  | succ i ih =>
+    unfold locateDigits
+    simp only []
+    generalize ijToQuaternary L ((x - pivot.1) * L.invPow2 i) ((y - pivot.2) * L.invPow2 i) F = dg
+    generalize ((pivot.1 + L.ofInt (kjToIJ (quaternaryToKJ dg F)).1 * L.ofInt (2 ^ i),
+      pivot.2 + L.ofInt (kjToIJ (quaternaryToKJ dg F)).2 * L.ofInt (2 ^ i)) : α × α) = pv
+    obtain ⟨new, h1, h2, h3⟩ := ih pv (mulFlips F (quaternaryToFlips dg)) (dg :: acc)
+    refine ⟨new ++ [dg], by rewrite [List.length_append, h1]; rfl, ?_, ?_⟩
+    · rewrite [h2, List.append_assoc]; rfl
+    · rewrite [h3, flipsProd_append, mulFlips_assoc, mulFlips_comm (flipsProd new)]
+      show _ = mulFlips F (mulFlips (mulFlips (quaternaryToFlips dg) (1, 1)) (flipsProd new))
+      rewrite [mulFlips_one]; rfl
+
+theorem locateDigits_length (L : Lits α) (x y : α) (n : Nat) :
+    (locateDigits L x y n (L.ofInt 0, L.ofInt 0) (Gen.NO, Gen.NO) []).1.length = n := by
+  obtain ⟨new, h1, h2, _⟩ := locateDigits_spec L x y n (L.ofInt 0, L.ofInt 0) (Gen.NO, Gen.NO) []
+  rewrite [h2, List.append_nil]; exact h1
+
+theorem locateDigits_flips (L : Lits α) (x y : α) (n : Nat) :
+    (locateDigits L x y n (L.ofInt 0, L.ofInt 0) (Gen.NO, Gen.NO) []).2 =
+      flipsProd (locateDigits L x y n (L.ofInt 0, L.ofInt 0) (Gen.NO, Gen.NO) []).1 := by
+  obtain ⟨new, h1, h2, h3⟩ := locateDigits_spec L x y n (L.ofInt 0, L.ofInt 0) (Gen.NO, Gen.NO) []
+  rewrite [h3, h2, List.append_nil]; exact NO_mulFlips _
+
+theorem ijToSInternal_eq (L : Lits α) (x y : α) (invertJ flipIJ : Bool) (n : Nat) :
+    ijToSInternal L x y invertJ flipIJ n =
+      digitsValue (shiftUp invertJ (reversePattern (hilbertPattern flipIJ)) n 0
+        (locateDigits L x y n (L.ofInt 0, L.ofInt 0) (Gen.NO, Gen.NO) []).1
+        (flipsProd (locateDigits L x y n (L.ofInt 0, L.ofInt 0) (Gen.NO, Gen.NO) []).1)) := by
+  rewrite [← locateDigits_flips]
+  unfold ijToSInternal
+  simp only [locateDigits_length]
+  cases flipIJ <;> rfl
+
+/-- as `ijToSInternal_eq`, with the result of the locate walk named -/
+theorem ijToSInternal_of_locate (L : Lits α) (x y : α) (invertJ flipIJ : Bool) (n : Nat) (e : List Nat)
+    (fl : Int × Int) (h : locateDigits L x y n (L.ofInt 0, L.ofInt 0) (Gen.NO, Gen.NO) [] = (e, fl)) :
+    ijToSInternal L x y invertJ flipIJ n =
+      digitsValue (shiftUp invertJ (reversePattern (hilbertPattern flipIJ)) n 0 e fl) := by
+  have hf := locateDigits_flips L x y n
+  rewrite [ijToSInternal_eq, ← hf, h]
+  rfl
+
+/-- COMBINED round trip: if the locate walk finds the shifted digits of position `s`, then
+`ijToSInternal` returns `s`.  (The flips returned by the locate walk need not be mentioned: they are
+always the product of the flips of the located digits.) -/
+theorem ijToSInternal_roundtrip (L : Lits α) (x y : α) (invertJ flipIJ : Bool) (n s : Nat) (hs : s < 4 ^ n)
+    (hloc : (locateDigits L x y n (L.ofInt 0, L.ofInt 0) (Gen.NO, Gen.NO) []).1 =
+      shiftedDigits s n invertJ flipIJ) :
+    ijToSInternal L x y invertJ flipIJ n = s := by
+  obtain ⟨_, hb, hc⟩ := shiftUp_shiftDown (isPerm8_hilbertPattern flipIJ) invertJ n (digitsLSB s n)
+    (length_digitsLSB s n) (digitsLSB_lt s n)
+  rewrite [ijToSInternal_eq, hloc]
+  unfold shiftedDigits
+  rewrite [← hb, hc]
+  exact digitsValue_digitsLSB s n hs
+
+end generic
+
+/-! ## position ↦ shifted digits is a bijection `{s < 4^n} → {digit lists of length n}` -/
+
+theorem shiftedDigits_spec (s n : Nat) (invertJ flipIJ : Bool) :
+    (shiftedDigits s n invertJ flipIJ).length = n ∧ ∀ x ∈ shiftedDigits s n invertJ flipIJ, x < 4 :=
+  (shiftUp_shiftDown (isPerm8_hilbertPattern flipIJ) invertJ n (digitsLSB s n)
+    (length_digitsLSB s n) (digitsLSB_lt s n)).1
+
+/-- the bottom-up pass recovers the position from its shifted digits -/
+theorem digitsValue_shiftUp_shiftedDigits (s n : Nat) (invertJ flipIJ : Bool) (hs : s < 4 ^ n) :
+    digitsValue (shiftUp invertJ (reversePattern (hilbertPattern flipIJ)) n 0 (shiftedDigits s n invertJ flipIJ)
+      (flipsProd (shiftedDigits s n invertJ flipIJ))) = s := by
+  obtain ⟨_, hb, hc⟩ := shiftUp_shiftDown (isPerm8_hilbertPattern flipIJ) invertJ n (digitsLSB s n)
+    (length_digitsLSB s n) (digitsLSB_lt s n)
+  unfold shiftedDigits
+  rewrite [← hb, hc]
+  exact digitsValue_digitsLSB s n hs
+
+theorem shiftedDigits_injective (n : Nat) (invertJ flipIJ : Bool) (s t : Nat) (hs : s < 4 ^ n) (ht : t < 4 ^ n)
+    (h : shiftedDigits s n invertJ flipIJ = shiftedDigits t n invertJ flipIJ) : s = t := by
+  have e1 := digitsValue_shiftUp_shiftedDigits s n invertJ flipIJ hs
+  have e2 := digitsValue_shiftUp_shiftedDigits t n invertJ flipIJ ht
+  rewrite [h] at e1
+  exact e1.symm.trans e2
+
+theorem shiftedDigits_surjective (n : Nat) (invertJ flipIJ : Bool) (e : List Nat) (hlen : e.length = n)
+    (hlt : ∀ x ∈ e, x < 4) : ∃ s, s < 4 ^ n ∧ shiftedDigits s n invertJ flipIJ = e := by
+  have hP := isPerm8_hilbertPattern flipIJ
+  obtain ⟨ul, ult⟩ := shiftUp_dig4 hP invertJ n e hlen hlt (flipsProd e)
+  refine ⟨digitsValue (shiftUp invertJ (reversePattern (hilbertPattern flipIJ)) n 0 e (flipsProd e)), ?_, ?_⟩
+  · have := digitsValue_lt _ ult
+    rewrite [ul] at this
+    exact this
+  · unfold shiftedDigits
+    have hd := digitsLSB_digitsValue _ ult
+    rewrite [ul] at hd
+    rewrite [hd, shiftDown_shiftUp hP invertJ n e hlen hlt]
+    rfl
+
+/-! ## non-vacuity: concrete, non-trivial instances (evaluated on the generated tables) -/
+
+/-- the shifting really moves digits (position 27 at depth 3), for both patterns -/
+example : shiftedDigits 27 3 false false ≠ digitsLSB 27 3 := by decide
+example : shiftedDigits 27 3 true true ≠ digitsLSB 27 3 ∨ shiftedDigits 28 3 true true ≠ digitsLSB 28 3 := by decide
+example : IsPerm8 (reversePattern Gen.PATTERN) := isPerm8_PATTERN.reverse
+example : reversePattern Gen.PATTERN ≠ Gen.PATTERN := by decide
+example : shiftUp true (reversePattern Gen.PATTERN_FLIPPED) 3 0
+    (shiftDown true Gen.PATTERN_FLIPPED 3 [3, 2, 1] (Gen.NO, Gen.NO)).1
+    (shiftDown true Gen.PATTERN_FLIPPED 3 [3, 2, 1] (Gen.NO, Gen.NO)).2 = [3, 2, 1] :=
+  (shiftUp_shiftDown isPerm8_PATTERN_FLIPPED true 3 [3, 2, 1] rfl (by decide)).2.2
+example : shiftDown false Gen.PATTERN 3 (shiftUp false (reversePattern Gen.PATTERN) 3 0 [3, 3, 1] (flipsProd [3, 3, 1]))
+    (Gen.NO, Gen.NO) = ([3, 3, 1], flipsProd [3, 3, 1]) :=
+  shiftDown_shiftUp isPerm8_PATTERN false 3 [3, 3, 1] rfl (by decide)
+example : digitsValue (digitsLSB 27 3) = 27 := digitsValue_digitsLSB 27 3 (by decide)
+/-- the hypothesis of `ijToSInternal_roundtrip` is satisfiable: over `Int`, locating the point `(0, 2)` at depth 1
+finds the shifted digits of position 2 -/
+example : ijToSInternal (α := Int) ⟨id, fun _ => 1⟩ 0 2 false false 1 = 2 :=
+  ijToSInternal_roundtrip _ _ _ _ _ 1 2 (by decide) (by decide)
+
 end A5
